@@ -131,6 +131,11 @@ def check_reduction(a, spec, name, axis_form, axis_dims, skipna, cl, attrs=None)
         def val(c):
             return reduce_list(name, fibres[tuple(core.canon_label(c[d]) for d in remaining)], skipna)
         core.expect_array(res, remaining, rlabels, val, what, tol=True, sig=sig)
+        # "labelled with the remaining axes": the axes that are not reduced come through as they are, metadata and tolerance included
+        for d_ in remaining:
+            src_ax = a.axes[d_]
+            check(core.attrs_equal(res.axes[d_].attrs, src_ax.attrs) and res.axes[d_].tol == src_ax.tol, "remaining-axis-changed",
+                  {"what": what, "dim": d_, "attrs": core.jsonable(dict(res.axes[d_].attrs)), "tol": res.axes[d_].tol, "expected_attrs": core.jsonable(dict(src_ax.attrs)), "expected_tol": src_ax.tol}, sig)
         if attrs is not None:
             check(core.attrs_equal(res.attrs, attrs), "attrs-not-carried", {"what": what, "got": core.jsonable(res.attrs), "expected": attrs}, sig)
         if res.values.size == 1:
@@ -233,6 +238,10 @@ def run_shape(case):
     spec = case["spec"]
     attrs = {"units": "m", "hist": [1, 2], "dtype": "float32", "copy": 0}       # (any key may be metadata, also names of constructor parameters)
     a = core.build(spec, attrs=attrs)
+    for i_, ax_ in enumerate(a.axes):        # the axes carry metadata (and numeric ones a tolerance) of their own
+        ax_.attrs["long_name"] = "axis %d" % i_
+        if ax_.values.dtype.kind in "if" and i_ % 2 == 0:
+            ax_.tol = 1e-9
     snap = core.snapshot(a)
     sub = []
     cl = set(["vk:" + spec["vk"]])
@@ -339,6 +348,10 @@ def run_gen(case):
     spec = case["spec"]
     attrs = {"units": "m", "hist": [1, 2], "dtype": "float32", "copy": 0}       # (any key may be metadata, also names of constructor parameters)
     a = core.build(spec, attrs=attrs)
+    for i_, ax_ in enumerate(a.axes):        # the axes carry metadata (and numeric ones a tolerance) of their own
+        ax_.attrs["long_name"] = "axis %d" % i_
+        if ax_.values.dtype.kind in "if" and i_ % 2 == 0:
+            ax_.tol = 1e-9
     forms = axis_forms(spec["dims"])
     cl = set(["vk:" + spec["vk"]])
     nt = False
